@@ -243,7 +243,12 @@ func (c *SpecCtx) loadSV(obj, off *Term, T types.Type) SV {
 			}
 		}
 	}
-	c.side(typingFacts(Val{T: T, L: out.L}, nil))
+	// references found in the memory of a state are older than that state's allocation counter
+	var allocBound *Term
+	if !c.clamp {
+		allocBound = c.st.Alloc
+	}
+	c.side(typingFacts(Val{T: T, L: out.L}, allocBound))
 	if !c.clamp && c.tr != nil && c.tr.eng != nil {
 		c.side(c.tr.globalSepFacts(Val{T: T, L: out.L}))
 	}
